@@ -332,10 +332,16 @@ def check_entities(ctx):
                 radix = int(x["args"][1]["v"]) if x["args"][1].get("k") == "lit" else None
             if x.get("k") == "index" and x["idx"].get("k") == "range" and x["idx"].get("from") is not None and x["idx"]["from"].get("k") == "lit":
                 start = int(x["idx"]["from"]["v"])
-        found[prefix] = (radix, start)
+        guard = None
+        for x in sir.walk(n["cond"]):
+            if x.get("k") == "binary" and x["op"] in (">", ">=") and sir.expr_str(x["l"]) == "len" and x["r"].get("k") == "lit":
+                guard = int(x["r"]["v"]) + (0 if x["op"] == ">" else -1)
+        found[prefix] = (radix, start, guard)
     for prefix, (wr, ws) in (("#x", (16, 3)), ("#", (10, 2))):
-        r, s = found.get(prefix, (None, None))
-        obs.append(ob("C12.entity/%s" % prefix, r == wr and s == ws, where, "`&%s..;` decoded with radix %s from byte offset %s (expected %d, %d)" % (prefix, r, s, wr, ws)))
+        r, s, g = found.get(prefix, (None, None, None))
+        # `&` prefix digits `;` : the shortest reference has one digit, i.e. len == start + 2, so the guard must be len > start + 1
+        obs.append(ob("C12.entity/%s" % prefix, r == wr and s == ws and g == ws + 1, where,
+                      "`&%s..;` decoded with radix %s from byte offset %s under the guard len > %s (expected radix %d, offset %d, guard len > %d so that one-digit references decode)" % (prefix, r, s, g, wr, ws, ws + 1)))
     uses_from_u32 = sum(1 for x in sir.walk(f.body) if x.get("k") == "call" and (sir.call_path(x) or "").endswith("from_u32"))
     obs.append(ob("C12.entity/scalar", uses_from_u32 >= 2, where, "numeric references go through char::from_u32 (surrogates and out-of-range values rejected): %d uses" % uses_from_u32))
     return obs
@@ -360,4 +366,11 @@ def run(ctx):
         obs.append(ob("C12.escaper/positive-control", False, "fixtures/poscontrol", "fixture missing"))
     obs += check_unescape(ctx)
     obs += check_entities(ctx)
+    # C12.sinks: every constant pasted into generated code goes through the emitter (same rule as C02.holes)
+    from rules.c02 import holes_rule
+    o, _sites = holes_rule(ctx)
+    for x in o:
+        x = dict(x)
+        x["key"] = x["key"].replace("C02.holes", "C12.sinks").replace("C02.floor", "C12.floor")
+        obs.append(x)
     return obs
